@@ -105,7 +105,21 @@ AvcCSigs(prop, site, b, sps, pps) ==
     \cup (IF Len(sps) >= 4 /\ At(b, 1, 3) # << sps[2], sps[3], sps[4] >> THEN {LSig(prop, "AvcC", site, "profile-level")} ELSE {})   \* shorter SPS: bytes not judged
     \cup (IF b[5] # 255 \/ b[6] # 225 THEN {LSig(prop, "AvcC", site, "reserved-bits")} ELSE {})
     \cup (IF At(b, 6, 2 + Len(sps)) # BE16(Len(sps)) \o sps THEN {LSig(prop, "AvcC", site, "sps")} ELSE {})
-    \cup (IF Slice(b, 9 + Len(sps), Len(b)) # << 1 >> \o BE16(Len(pps)) \o pps THEN {LSig(prop, "AvcC", site, "pps")} ELSE {})
+    \cup (IF At(b, 8 + Len(sps), 3 + Len(pps)) # << 1 >> \o BE16(Len(pps)) \o pps THEN {LSig(prop, "AvcC", site, "pps")} ELSE {})
+
+(* ISO/IEC 14496-15 5.3.3.1.2: for the High profiles (profile_idc 100, 110, 122, 144) the record continues *)
+(* after the picture parameter sets with 6+2 bits chroma_format, 5+3 bits bit_depth_luma_minus8, 5+3 bits  *)
+(* bit_depth_chroma_minus8 (reserved bits all ones) and a count of SPS extensions; for the other profiles  *)
+(* it ends there.  The values of the three fields are not judged (that needs the SPS payload decoded).     *)
+AvcHighProfiles == {100, 110, 122, 144}
+AvcCTailSigs(prop, site, b, sps, pps) ==
+    IF Len(sps) > 65535 \/ Len(pps) > 65535 \/ Len(sps) < 4 \/ Len(b) < 11 + Len(sps) + Len(pps) THEN {}
+    ELSE LET ext == Slice(b, 12 + Len(sps) + Len(pps), Len(b)) IN
+         IF sps[2] \in AvcHighProfiles THEN
+              IF ext = << >> THEN {LSig(prop, "AvcC", site, "high-profile-extension-absent")}
+              ELSE IF Len(ext) < 4 \/ ext[1] < 252 \/ ext[2] < 248 \/ ext[3] < 248 \/ (ext[4] = 0 /\ Len(ext) # 4)
+                   THEN {LSig(prop, "AvcC", site, "high-profile-extension-malformed")} ELSE {}
+         ELSE IF ext # << >> THEN {LSig(prop, "AvcC", site, "trailing-bytes")} ELSE {}
 
 (* hvcC arrays: parse from offset 22 (0-based); returns sequence of [type, res, nals] or <<-1>> *)
 RECURSIVE HvcNals(_, _, _)
@@ -167,6 +181,17 @@ VpcCSigs(prop, site, b, f) ==         \* f: Vp9Fields of the first key frame; le
     \cup (IF b[7] \div 16 # f.depth THEN {LSig(prop, "VpcC", site, "bit-depth")} ELSE {})
     \cup (IF b[7] % 2 # f.fr THEN {LSig(prop, "VpcC", site, "full-range")} ELSE {})
     \cup (IF At(b, 10, 2) # << 0, 0 >> THEN {LSig(prop, "VpcC", site, "codecInitializationDataSize")} ELSE {})
+
+(* C07: the content of the record (FullBox form): profile, bit depth, range flag and the three colour bytes of *)
+(* the first key frame; profiles 0 and 2 are 4:2:0 by definition (chromaSubsampling 0 or 1), for profiles 1 and 3 *)
+(* the documented key-frame form does not carry the subsampling and the value is not judged.                      *)
+VpcCContentSigs(prop, site, b, f) ==
+    IF Len(b) # 12 THEN {}
+    ELSE (IF b[5] # f.profile THEN {LSig(prop, "VpcCContent", site, "profile")} ELSE {})
+    \cup (IF b[7] \div 16 # f.depth THEN {LSig(prop, "VpcCContent", site, "bit-depth")} ELSE {})
+    \cup (IF b[8] # f.cs \/ b[9] # f.tf \/ b[10] # f.mc THEN {LSig(prop, "VpcCContent", site, "colour")} ELSE {})
+    \cup (IF b[7] % 2 # f.fr THEN {LSig(prop, "VpcCContent", site, "full-range")} ELSE {})
+    \cup (IF f.profile % 2 = 0 /\ (b[7] \div 2) % 8 \notin {0, 1} THEN {LSig(prop, "VpcCContent", site, "chroma-subsampling")} ELSE {})
 
 (* what the pinned layout (8 plain bytes: version, profile, level, depth, cs, tf, mc, range) still lets us compare *)
 VpcCPlainSigs(prop, site, b, f) ==
@@ -248,13 +273,14 @@ VideoConfigSigs(F, path, site, vc, first) ==     \* first: first key frame bytes
     NeedRaw(F, path, site, LAMBDA b :
         IF vc = "h264" THEN AvcCSigs("C07", site, b, H264Sps(first), H264Pps(first))
                             \cup (IF Len(b) >= 6 /\ (b[1] # 1 \/ b[5] # 255 \/ b[6] # 225) THEN {LSig("C19", "AvcC", site, "version-reserved")} ELSE {})
+                            \cup AvcCTailSigs("C19", site, b, H264Sps(first), H264Pps(first))
         ELSE IF vc = "h265" THEN
              { IF s[4] \in {"vps", "sps", "pps", "profile-tier-level"} THEN LSig("C07", s[2], s[3], s[4]) ELSE s
                : s \in HvcCSigs("C19", site, b, H265Vps(first), H265Sps(first), H265Pps(first)) }
         ELSE IF vc = "av1" THEN
              { IF s[4] \in {"marker-version", "reserved-bits", "truncated"} THEN LSig("C19", s[2], s[3], s[4]) ELSE s
                : s \in Av1CSigs("C07", site, b, Av1SeqObuBytes(first)) }
-        ELSE VpcCSigs("C19", site, b, Vp9Fields(first)) \cup VpcCPlainSigs("C07", site, b, Vp9Fields(first)))
+        ELSE VpcCSigs("C19", site, b, Vp9Fields(first)) \cup VpcCPlainSigs("C07", site, b, Vp9Fields(first)) \cup VpcCContentSigs("C07", site, b, Vp9Fields(first)))
 
 TrackIdOf(F, t) == F.tracks[t].tid
 
@@ -278,7 +304,9 @@ ProgressiveRawSigs(F, cfg, firstKey, hasVideo) ==
     \cup NeedRaw(F, vt \o ".mdia.mdhd", "progressive/mdhd", LAMBDA b : FieldTableSigs("C19", "progressive/mdhd", b, MdhdSize(b), MdhdFieldsV(b, 90000)))
     \cup NeedRaw(F, vt \o ".mdia.hdlr", "progressive/hdlr", LAMBDA b : FieldTableSigs("C19", "progressive/hdlr", b, -1, HdlrFields(VIDE))
               \cup (IF Len(b) < 25 \/ b[Len(b)] # 0 THEN {LSig("C19", "BoxLayout", "progressive/hdlr", "name")} ELSE {}))
-    \cup NeedRaw(F, vt \o ".mdia.minf.vmhd", "progressive/vmhd", LAMBDA b : FieldTableSigs("C19", "progressive/vmhd", b, 12, << Fld("version", 0, 1, << 0 >>) >>))
+    \cup NeedRaw(F, vt \o ".mdia.minf.vmhd", "progressive/vmhd", LAMBDA b : FieldTableSigs("C19", "progressive/vmhd", b, 12,     \* 14496-12 12.1.2: FullBox(version 0, flags 1)
+                                << Fld("version", 0, 1, << 0 >>), Fld("flags", 1, 3, << 0, 0, 1 >>), Fld("graphicsmode-opcolor", 4, 8, Zeros(8)) >>))
+    \cup NeedRaw(F, vt \o ".mdia.minf.dinf.dref.url ", "progressive/url", LAMBDA b : FieldTableSigs("C19", "progressive/url", b, 4, << Fld("version-flags", 0, 4, << 0, 0, 0, 1 >>) >>))   \* self-contained
     \cup NeedRaw(F, vt \o ".mdia.minf.dinf.dref", "progressive/dref", LAMBDA b : FieldTableSigs("C19", "progressive/dref", b, 8, << Fld("version-flags", 0, 4, Zeros(4)), Fld("entry_count", 4, 4, << 0,0,0,1 >>) >>))
     \cup NeedRaw(F, vstsd, "progressive/stsd", LAMBDA b : FieldTableSigs("C19", "progressive/stsd", b, 8, << Fld("version-flags", 0, 4, Zeros(4)), Fld("entry_count", 4, 4, << 0,0,0,1 >>) >>))
     \cup (IF hasVideo THEN
@@ -294,6 +322,7 @@ ProgressiveRawSigs(F, cfg, firstKey, hasVideo) ==
                   \cup (IF ~TkhdEnabled(b) THEN {LSig("C19", "Recovered", "progressive/tkhd-audio", "track-not-enabled")} ELSE {}))
         \cup NeedRaw(F, at \o ".mdia.mdhd", "progressive/mdhd-audio", LAMBDA b : FieldTableSigs("C19", "progressive/mdhd-audio", b, MdhdSize(b), MdhdFieldsV(b, 90000)))
         \cup NeedRaw(F, at \o ".mdia.hdlr", "progressive/hdlr-audio", LAMBDA b : FieldTableSigs("C19", "progressive/hdlr-audio", b, -1, HdlrFields(SOUN)))
+        \cup NeedRaw(F, at \o ".mdia.minf.dinf.dref.url ", "progressive/url-audio", LAMBDA b : FieldTableSigs("C19", "progressive/url-audio", b, 4, << Fld("version-flags", 0, 4, << 0, 0, 0, 1 >>) >>))
         \cup NeedRaw(F, at \o ".mdia.minf.smhd", "progressive/smhd", LAMBDA b : FieldTableSigs("C19", "progressive/smhd", b, 8, << Fld("version-flags", 0, 4, Zeros(4)), Fld("reserved", 6, 2, Zeros(2)) >>))
         \cup (IF F.tracks[2].entry # aent THEN {LSig("C07", "SampleEntry", "progressive/audio", ToString(<< "type", F.tracks[2].entry >>))} ELSE
               NeedRaw(F, astsd \o "." \o aent, "progressive/" \o aent, LAMBDA b :
@@ -329,6 +358,7 @@ InitConfigSigs(F, path, site, cfg) ==
     NeedRaw(F, path, site, LAMBDA b :
         IF cfg.vc = "h264" THEN AvcCSigs("C07", site, b, cfg.sps, cfg.pps)
                             \cup (IF Len(b) >= 6 /\ (b[1] # 1 \/ b[5] # 255 \/ b[6] # 225) THEN {LSig("C19", "AvcC", site, "version-reserved")} ELSE {})
+                            \cup AvcCTailSigs("C19", site, b, cfg.sps, cfg.pps)
         ELSE IF cfg.vc = "h265" THEN
              IF TooLong(cfg.vps) \/ TooLong(cfg.sps) \/ TooLong(cfg.pps) THEN {}       \* lengths cannot be stored: C16
              ELSE
@@ -339,7 +369,7 @@ InitConfigSigs(F, path, site, cfg) ==
                : s \in Av1CSigs("C07", site, b, cfg.av1) }
         ELSE LET f == [profile |-> cfg.vp9.profile, depth |-> cfg.vp9.bit_depth, cs |-> cfg.vp9.color_space,
                        tf |-> cfg.vp9.transfer_function, mc |-> cfg.vp9.matrix_coefficients, fr |-> cfg.vp9.full_range_flag]
-             IN VpcCSigs("C19", site, b, f) \cup VpcCPlainSigs("C07", site, b, f))
+             IN VpcCSigs("C19", site, b, f) \cup VpcCPlainSigs("C07", site, b, f) \cup VpcCContentSigs("C07", site, b, f))
 
 InitWidthSigs0(cfg) ==
          (IF cfg.vc = "h264" /\ "sps" \in DOMAIN cfg /\ (TooLong(cfg.sps) \/ TooLong(cfg.pps))
@@ -366,7 +396,9 @@ RawSigsInit(F, cfg) ==
     \cup NeedRaw(F, vt \o ".mdia.mdhd", "init/mdhd", LAMBDA b : FieldTableSigs("C19", "init/mdhd", b, MdhdSize(b), MdhdFieldsV(b, cfg.timescale)))
     \cup NeedRaw(F, vt \o ".mdia.hdlr", "init/hdlr", LAMBDA b : FieldTableSigs("C19", "init/hdlr", b, -1, HdlrFields(VIDE))
               \cup (IF Len(b) < 25 \/ b[Len(b)] # 0 THEN {LSig("C19", "BoxLayout", "init/hdlr", "name")} ELSE {}))
-    \cup NeedRaw(F, vt \o ".mdia.minf.vmhd", "init/vmhd", LAMBDA b : FieldTableSigs("C19", "init/vmhd", b, 12, << Fld("version", 0, 1, << 0 >>) >>))
+    \cup NeedRaw(F, vt \o ".mdia.minf.vmhd", "init/vmhd", LAMBDA b : FieldTableSigs("C19", "init/vmhd", b, 12,     \* 14496-12 12.1.2: FullBox(version 0, flags 1)
+                                << Fld("version", 0, 1, << 0 >>), Fld("flags", 1, 3, << 0, 0, 1 >>), Fld("graphicsmode-opcolor", 4, 8, Zeros(8)) >>))
+    \cup NeedRaw(F, vt \o ".mdia.minf.dinf.dref.url ", "init/url", LAMBDA b : FieldTableSigs("C19", "init/url", b, 4, << Fld("version-flags", 0, 4, << 0, 0, 0, 1 >>) >>))   \* self-contained
     \cup NeedRaw(F, vt \o ".mdia.minf.dinf.dref", "init/dref", LAMBDA b : FieldTableSigs("C19", "init/dref", b, 8, << Fld("version-flags", 0, 4, Zeros(4)), Fld("entry_count", 4, 4, << 0,0,0,1 >>) >>))
     \cup NeedRaw(F, vstsd, "init/stsd", LAMBDA b : FieldTableSigs("C19", "init/stsd", b, 8, << Fld("version-flags", 0, 4, Zeros(4)), Fld("entry_count", 4, 4, << 0,0,0,1 >>) >>))
     \cup NeedRaw(F, "moov.mvex.trex", "init/trex", LAMBDA b : FieldTableSigs("C19", "init/trex", b, 24,
